@@ -38,7 +38,8 @@ class Task final {
 
   Task() noexcept = default;
   ~Task() noexcept {
-    if (Valid()) {
+    // A Task that was already started and completed (e.g. left valid by co_await Await(task)) only releases its result
+    if (Valid() && !Ready()) {
       std::move(*this).Cancel();
     }
   }
